@@ -109,7 +109,22 @@ def _norm_mv(v):
     return ("o", repr(v))
 
 
+_MK = {}
+
+
 def meta_key(m):
+    """memoised per object (the object is kept alive alongside its key)"""
+    hit = _MK.get(id(m))
+    if hit is not None and hit[0] is m:
+        return hit[1]
+    k = _meta_key(m)
+    if len(_MK) > 200000:
+        _MK.clear()
+    _MK[id(m)] = (m, k)
+    return k
+
+
+def _meta_key(m):
     """What Metadata == means (attribute-wise ==, dicts order-insensitive, 1 == 1.0 == True), computed
     WITHOUT calling Metadata.__eq__ / __hash__: the oracles group cells into slices with this."""
     return (m.risk_basis, m.country, m.currency, m.reinsurance_basis, m.loss_definition, _norm_mv(m.per_occurrence_limit),
